@@ -161,6 +161,23 @@ func c18Scenarios() []c18Scenario {
 			}
 			return []func(){fr, mergeN(w.C, R0), func() { w.C.Count() }}, w.Close
 		}},
+		{"snapshot||inserter||deleter", func() ([]func(), func()) {
+			w := c18World(false)
+			ins := func() { w.C.Insert(func(r column.Row) error { r.SetInt("n", 5); return nil }) }
+			return []func(){func() { var b bytes.Buffer; w.C.Snapshot(&b) }, ins, func() { w.C.DeleteAt(R1) }}, w.Close
+		}},
+		{"record-merge-block0||record-merge-block1||string-merge", func() ([]func(), func()) {
+			w := model.NewWorld(model.Config{Cols: []model.ColDef{{Name: "r", Kind: "record"}, {Name: "s", Kind: "string"}}})
+			seed := []model.Write{{Col: "r", V: model.Val{S: "r"}}, {Col: "s", V: model.Val{S: "s"}}}
+			w.SeedReplay(map[uint32][]model.Write{R0: seed, R1: seed})
+			mr := func(off uint32) func() {
+				return func() {
+					w.C.QueryAt(off, func(r column.Row) error { return r.MergeRecord("r", &model.Rec{B: []byte("d")}) })
+				}
+			}
+			ms := func() { w.C.QueryAt(R0, func(r column.Row) error { r.MergeString("s", "x"); return nil }) }
+			return []func(){mr(R0), mr(R1), ms}, w.Close
+		}},
 		{"two-snapshots||writer", func() ([]func(), func()) {
 			w := c18World(false)
 			sn := func() { var b bytes.Buffer; w.C.Snapshot(&b) }
@@ -204,7 +221,7 @@ func init() {
 	eng.Register(&eng.Check{
 		Prop:  "C18",
 		Level: "model_checking", NodeStates: true,
-		Rule: "SCHED over 14 scenarios mixing transactions, point reads, filtered iteration, inserts, deletes, growth into a new block, snapshots, restore into another collection, index / " +
+		Rule: "SCHED over 16 scenarios mixing transactions, point reads, filtered iteration, inserts, deletes, growth into a new block, snapshots, restore into another collection, index / " +
 			"sorted index / trigger creation and removal, keyed operations. race/* units run in the -race build with the scheduler's hand-offs hidden from the detector " +
 			"(runtime.RaceDisable), so that every explored schedule is checked against the program's own happens-before order for ALL conflicting accesses it performs; a report is " +
 			"identified by the pair of innermost kelindar/column functions. deadlock/* units run the plain build at a higher bound; a schedule after which some thread can never run is a " +
@@ -216,9 +233,9 @@ func init() {
 		Budget: budget(170*time.Second, 28*time.Minute),
 		Bounds: func(tier string) map[string]any {
 			if tier == "quick" {
-				return map[string]any{"preemption_bound_race": 2, "preemption_bound_deadlock": 2, "scenarios": 14, "note": "the 16K-row scenario runs one bound lower"}
+				return map[string]any{"preemption_bound_race": 2, "preemption_bound_deadlock": 2, "scenarios": 16, "note": "the 16K-row scenario runs one bound lower"}
 			}
-			return map[string]any{"preemption_bound_race": 3, "preemption_bound_deadlock": 4, "scenarios": 14}
+			return map[string]any{"preemption_bound_race": 3, "preemption_bound_deadlock": 4, "scenarios": 16}
 		},
 		Units: c18Units,
 	})
